@@ -1085,6 +1085,11 @@ package graphql
 // merged into an existing key widens the key's predicate with exactly its own inclusion predicate
 // (container gate AND enclosing conditions AND own directives), and records that predicate next to
 // its AST so that only included occurrences contribute their sub-selections.
+// C20 "ResolveInfo.FieldASTs lists every occurrence": a field occurrence that the plan-time directives do not
+// exclude is recorded exactly once, and one that repeats a response key is merged into it (its AST and its
+// predicate appended, the key's predicate widened) — never dropped
+//@   loop[C20,C01] 1 ensures calls("planDirectives") == atloop(1, calls("planDirectives")) + 1 && typeis(iSelection, "*ast.Field") && !lastresult("planDirectives", 1) ==> calls("record") == atloop(1, calls("record")) + 1
+//@   loop[C20,C01] 1 ensures calls("planDirectives") == atloop(1, calls("planDirectives")) + 1 && calls("getFieldDef") == atloop(1, calls("getFieldDef")) && typeis(iSelection, "*ast.Field") && !lastresult("planDirectives", 1) ==> calls("orPredicates") == atloop(1, calls("orPredicates")) + 1 && calls("append") == atloop(1, calls("append")) + 2
 //@   at[C01] call andPredicates#2: assert arg0 == parentPred && arg1 == pred
 //@   at[C01] call andPredicates#1: assert arg0 == containerPred && arg1 == lastresult("andPredicates")
 //@   at[C01] call andPredicates#5: assert arg0 == parentPred && arg1 == pred
